@@ -32,6 +32,7 @@ func runC17(c *Ctx) {
 	c17PanicSet(c)
 	c17Quote(c)
 	c17Contain(c)
+	c17MergeSites(c)
 }
 
 // onlyErrorReturns: every normal exit reachable from start is a return whose
